@@ -35,6 +35,16 @@ def run(rep, tier):
     dbs = facts.load_core(backends, ["PTR", "INVOKE", "ARR"], thorough=(tier == "thorough"))
     n = {"footprint": 0, "fns": 0, "accesses": 0, "loadstore": 0, "range": 0}
     view = RuleView(rep, {"R-C10-elem": "R-C07-range"})
+    rep.rule("R-C07-encoding", "pointers stored in sandbox memory are decoded / encoded relative to the sandbox they live in: every example-based translation in the load / store / struct conversion paths receives the "
+             "address of the sandbox-memory object itself (shared analysis with C04's R-C04-example)")
+    from . import c04 as _c04
+    for db in dbs:
+        for f in db.functions:
+            if not f["dep"] and "body" in f and _c04.is_example_user(f):
+                try:
+                    _c04.check_example(rep, db, f, "%s | %s" % (db.label, f["full"][:150]), rule="R-C07-encoding")
+                except Inconclusive as ex:
+                    rep.inconclusive("R-C07-encoding", site(f), str(ex), "%s | %s" % (db.label, f["full"][:150]))
     for db in dbs:
         rep.units.append(db.label)
         for name in ("rlbox::tainted_base_impl::copy_and_verify_range", "rlbox::tainted_base_impl::copy_and_verify_buffer_address", "rlbox::tainted_base_impl::unverified_safe_pointer_because"):
